@@ -105,8 +105,9 @@ func c14normPkg(c *core.Ctx, R, rel string) {
 		return
 	}
 	// expression classification: does e read the text of a lexeme, and is it normalised?
-	var lexText func(e ast.Expr) (isLex bool, unquoted bool)
-	lexText = func(e ast.Expr) (bool, bool) {
+	// returns: is the text of a lexeme, was it TrimSpaces'd, was it Unquote'd
+	var lexText func(e ast.Expr) (isLex bool, trimmed bool, unquoted bool)
+	lexText = func(e ast.Expr) (bool, bool, bool) {
 		e = ast.Unparen(e)
 		call, ok := e.(*ast.CallExpr)
 		if !ok {
@@ -118,34 +119,37 @@ func c14normPkg(c *core.Ctx, R, rel string) {
 					}
 				}
 			}
-			return false, false
+			return false, false, false
 		}
 		se, ok := call.Fun.(*ast.SelectorExpr)
 		if !ok {
-			return false, false
+			return false, false, false
 		}
 		callee := core.FullName(core.Callee(pk, call))
 		switch callee {
 		case "(lexeme.LexEvent).Value":
-			return true, false
+			return true, false, false
 		case "(bytes.Bytes).Unquote":
-			l, _ := lexText(se.X)
-			return l, true
-		case "(bytes.Bytes).TrimSpaces", "(bytes.Bytes).String", "(bytes.Bytes).Data":
+			l, t, _ := lexText(se.X)
+			return l, t, true
+		case "(bytes.Bytes).TrimSpaces":
+			l, _, u := lexText(se.X)
+			return l, true, u
+		case "(bytes.Bytes).String", "(bytes.Bytes).Data":
 			return lexText(se.X)
 		}
-		return false, false
+		return false, false, false
 	}
 	n := map[string]int{}
 	check := func(fn string, at ast.Node, e ast.Expr, against string) {
-		isLex, unq := lexText(e)
+		isLex, trimmed, unq := lexText(e)
 		if !isLex {
 			return
 		}
 		n[fn]++
 		key := core.F("%s:cmp#%d", fn, n[fn])
-		c.Check(unq, R, key, c.P.Pos(at.Pos()), core.F("lexeme text `%s` compared with %s in %s", core.ExprStr(e), against, fn),
-			"the raw lexeme text is compared with a name: the quoted spelling (\"enum\") does not match where the bare one (enum) does")
+		c.Check(unq && trimmed, R, key, c.P.Pos(at.Pos()), core.F("lexeme text `%s` compared with %s in %s", core.ExprStr(e), against, fn),
+			"the lexeme text is compared with a name without TrimSpaces() and Unquote(): a bare key keeps the blanks before the colon (`enum :`) and a quoted key keeps its quotes, so those spellings do not match where `enum:` does")
 	}
 	for _, file := range pk.Syntax {
 		for _, d := range file.Decls {
